@@ -12,6 +12,10 @@ import CoreDhcp.Props.C10
 import CoreDhcp.Props.C01
 import CoreDhcp.Props.C16
 import CoreDhcp.Props.C18
+import CoreDhcp.Props.C14
+import CoreDhcp.Props.C17
+import CoreDhcp.Props.C19
+import CoreDhcp.Props.Builtin
 import CoreDhcp.Props.C11
 import CoreDhcp.Props.C12
 import CoreDhcp.Props.C13
@@ -84,3 +88,41 @@ open CoreDhcp
 #print axioms C18_address_form
 #print axioms C18_rejects_bad_address
 #print axioms C18_needs_a_protocol
+#print axioms C14_v6
+#print axioms C14_v6_matrix
+#print axioms C14_v6_matrix_all
+#print axioms C14_v6_duid_of_setup
+#print axioms C14_v4
+#print axioms C14_v4_addr_of_setup
+#print axioms C17_builtin4
+#print axioms C17_builtin6
+#print axioms C17_netmask4
+#print axioms C17_router4
+#print axioms C17_searchdomains4
+#print axioms C17_searchdomains6
+#print axioms C17_staticroute4
+#print axioms C17_dns4
+#print axioms C17_dns6
+#print axioms C17_mtu4
+#print axioms C17_nbp4
+#print axioms C17_nbp6
+#print axioms C17_leasetime4
+#print axioms C17_ipv6only4
+#print axioms C17_autoconfigure4
+#print axioms C17_sleep4
+#print axioms C17_sleep6
+#print axioms C17_inrange_mtu
+#print axioms C17_inrange_seconds
+#print axioms C17_D17_prefix_refuted
+#print axioms C11_builtin_preserve_mt
+#print axioms C12_builtin_preserve_mt
+#print axioms C19_setup_wireOK
+#print axioms C19_setup_wireOK4
+#print axioms C19_staticroute_rejects_non_ipv4
+#print axioms C19_routes_roundtrip
+#print axioms C19_labels_roundtrip
+#print axioms C19_ips_roundtrip
+#print axioms C19_bootparams_roundtrip
+#print axioms C19_oversize6_refuted
+#print axioms C13_nil_stop_builtin
+#print axioms C13_nil_stop_builtin6
